@@ -1,12 +1,13 @@
 /-
 C03 — PDU encode/decode round trip for every message type and field value.
 PARTIAL: command_length is proved for all fifteen classes and every field assignment; the
-header and the round trip are proved for the body-less classes and for submit_sm_resp /
-deliver_sm_resp; for submit_sm / deliver_sm / bind / bind_resp the round trip is so far tied
-by the correspondence + round-trip predicate only (the model of their encoders and decoders
-is the one the driver runs).
+header and the round trip are proved for the body-less classes, for submit_sm_resp /
+deliver_sm_resp, for the three bind requests and the three bind responses (13 of the 15 classes);
+for submit_sm / deliver_sm the round trip is so far tied by the correspondence + round-trip
+predicate only (the model of their encoder and decoder is the one the driver runs).
 -/
 import SmppVerif.Lemmas.Pdu
+import SmppVerif.Lemmas.BindRound
 
 namespace SmppVerif.Props.C03
 open SmppVerif SmppVerif.Pdu SmppVerif.Lemmas.Pdu
@@ -45,6 +46,24 @@ theorem smResp_round_trip (dflt : Enc) (r : SmResp) (deliver : Bool) (b : List N
     decode b dflt = .ok (untracked (if deliver then .deliverSmResp r else .submitSmResp r)) :=
   Lemmas.Pdu.smResp_round_trip dflt r deliver b e h hst hlen
 
+/-- Round trip, bind_transmitter / bind_receiver / bind_transceiver: every field allowed by SMPP 3.4
+    (C-octet strings without NUL up to their maximum lengths, interface_version 0..255, every TON / NPI
+    member, every sequence number the header can carry) comes back; the command_status of a request is
+    null on the wire. -/
+theorem bind_round_trip (dflt : Enc) (k : BindKind) (b : BindReq) (w : Lemmas.BindRound.BindWF b)
+    (bytes : List Nat) (e : Option Enc) (hst : enumHas Gen.Enums.smppCommandStatus b.status = true)
+    (h : pdu dflt (Msg.bind k b) = .ok (bytes, e)) :
+    decode bytes dflt = .ok (Msg.bind k { b with status := 0 }) :=
+  Lemmas.BindRound.bind_round_trip dflt k b w bytes e hst h
+
+/-- Round trip, the three bind responses: status, sequence number, system_id, sc_interface_version
+    absent or any value 0..255. -/
+theorem bindResp_round_trip (dflt : Enc) (k : BindKind) (b : BindResp) (w : Lemmas.BindRound.BindRespWF b)
+    (bytes : List Nat) (e : Option Enc) (hst : enumHas Gen.Enums.smppCommandStatus b.status = true)
+    (h : pdu dflt (Msg.bindResp k b) = .ok (bytes, e)) :
+    decode bytes dflt = .ok (Msg.bindResp k b) :=
+  Lemmas.BindRound.bindResp_round_trip dflt k b w bytes e hst h
+
 /-- Non-vacuity: a submit_sm_resp with a 3-character id, and a short GSM submit_sm whose PDU
     decodes to itself (kernel evaluation of the SubmitSm encoder and decoder of the model). -/
 example : pdu encGsm (.submitSmResp { seq := 7, status := 0, messageId := [97, 98, 99] })
@@ -61,3 +80,5 @@ end SmppVerif.Props.C03
 #print axioms SmppVerif.Props.C03.header_round_trip
 #print axioms SmppVerif.Props.C03.bodyless_round_trip
 #print axioms SmppVerif.Props.C03.smResp_round_trip
+#print axioms SmppVerif.Props.C03.bind_round_trip
+#print axioms SmppVerif.Props.C03.bindResp_round_trip
